@@ -23,9 +23,10 @@ import (
 
 type knownFile struct {
 	Known []struct {
-		ID       string `json:"id"`
-		Property string `json:"property"`
-		What     string `json:"what"`
+		ID       string   `json:"id"`
+		Property string   `json:"property"`
+		What     string   `json:"what"`
+		Labels   []string `json:"labels,omitempty"`
 	} `json:"known"`
 	Fixed []struct {
 		ID       string `json:"id"`
@@ -59,6 +60,8 @@ type job struct {
 	h      *ssa.Function
 	prefix []interp.Decision
 }
+
+var knownLabels map[string][]string
 
 var (
 	repo       = flag.String("repo", "/repo", "repository under test")
@@ -198,6 +201,7 @@ func run() int {
 	known := map[string]bool{}
 	knownWhat := map[string]string{}
 	knownProp := map[string]string{}
+	knownLabels = map[string][]string{}
 	var kf knownFile
 	if b, err := os.ReadFile(*knownPath); err == nil {
 		if err := json.Unmarshal(b, &kf); err != nil {
@@ -207,6 +211,7 @@ func run() int {
 			known[k.ID] = true
 			knownWhat[k.ID] = k.What
 			knownProp[k.ID] = k.Property
+			knownLabels[k.ID] = k.Labels
 		}
 	}
 
@@ -390,7 +395,7 @@ func explore(sh *interp.Shared, h *ssa.Function, known map[string]bool) *harness
 				firstTrace = false
 				mu.Unlock()
 
-				res := sh.RunPath(h, j.prefix, s, known, interp.RunOpts{MaxSteps: *maxSteps, WantWit: true, Trace: tr})
+				res := sh.RunPath(h, j.prefix, s, known, interp.RunOpts{MaxSteps: *maxSteps, WantWit: true, Trace: tr, KnownLabels: knownLabels})
 
 				mu.Lock()
 				active--
